@@ -177,6 +177,8 @@ void vp_opt_Parse(const char **s_p, bool split)
 __CPROVER_requires(__CPROVER_w_ok(s_p, sizeof(*s_p)) && VP_NUL_AT_OR_AFTER(*s_p))
 __CPROVER_ensures(FWD(*s_p, __CPROVER_old(*s_p))) __CPROVER_assigns(*s_p);
 enum { NO_OPTION_ECHO = 1, FROM_COMMAND_LINE = 2 };
+/* 'name=?' leaves all values unchanged: the value parser is never invoked on a query token ('?' followed by the end of the text or white space) */
+#define VP_NOT_A_QUERY(s) __CPROVER_assert(!((s)[0] == '?' && ((s)[1] == 0 || vp_isspace((s)[1]))), "a query 'name=?' does not reach the value parser: all option values stay unchanged")
 '''
 
 
@@ -188,7 +190,7 @@ def pos_fn():
               subst=[(r'fmt::internal::MemoryBuffer<char, 50> name;', 'char *name;', 1),
                      (r'name\.resize\(name_size \+ 1\);', 'name = vp_buffer_resize(name_size + 1);', 1),
                      (r'SolverOption \*opt = ', 'struct SolverOption *opt = ', 1),
-                     (r'opt->Parse\(s, ', 'vp_opt_Parse(&s, ', 3),
+                     (r'opt->Parse\(s, ', 'VP_NOT_A_QUERY(s); vp_opt_Parse(&s, ', 3),
                      (r'opt->is_flag\(\)', 'vp_opt_is_flag(opt)', 2),
                      (r'Print\("  \{\}\\n", opt->echo_with_value\(\)\);', 'vp_print();', 1),      # R18: echo
                      (r"Print\(\"  \{\}\", opt->echo_with_value\(\) \+ '\\n'\);", 'vp_print();', 1)],
